@@ -105,6 +105,12 @@ VP_HARNESS(h_indexes_types)
 }
 
 /* ---- index VALUES: explicit lists and numeric interleavings, incl. duplicates and loop counts whose product overflows ------------------ */
+#ifndef IVN1
+#define IVN1 3
+#endif
+#ifndef IVN2
+#define IVN2 2
+#endif
 #ifndef IVMODE
 #define IVMODE 0      /* 0: pu:3(indexes=a,b,c) with a,b,c in 0..3; 1: pu:4(indexes=S1*N1:S2*N2[:1*BIG]) */
 #endif
@@ -113,7 +119,7 @@ static unsigned put(char *s, unsigned p, const char *t) { for (unsigned i = 0; t
 static void values_case(unsigned a, unsigned b, unsigned c, unsigned d, unsigned e)
 {
   static const char *const dig[4] = { "0", "1", "2", "3" };
-  static const char *const nbn[4] = { "1", "2", "4", "2147483648" };
+  static const char *const nbn[4] = { "2", "2147483648", "4", "1" };      /* the first IVN1 / IVN2 of them are used for the first / second loop */
   static const char *const stp[2] = { "1", "2" };
   char *s = malloc(96); VP_NONNULL(s);
   unsigned p = 0, total;
@@ -158,8 +164,8 @@ VP_HARNESS(h_indexes_values)
   unsigned x = (unsigned) vp_in_range(0, 3), y = (unsigned) vp_in_range(0, 3), z = (unsigned) vp_in_range(0, 3);
   for (unsigned a = 0; a < 4; a++) for (unsigned b = 0; b < 4; b++) for (unsigned c = 0; c < 4; c++) if (x == a && y == b && z == c) values_case(a, b, c, 0, 0);
 #else
-  unsigned x = (unsigned) vp_in_range(0, 1), y = (unsigned) vp_in_range(0, 3), z = (unsigned) vp_in_range(0, 1), u = (unsigned) vp_in_range(0, 3), v = (unsigned) vp_in_range(0, 1);
-  for (unsigned a = 0; a < 2; a++) for (unsigned b = 0; b < 4; b++) for (unsigned c = 0; c < 2; c++) for (unsigned d = 0; d < 4; d++) for (unsigned e = 0; e < 2; e++) if (x == a && y == b && z == c && u == d && v == e) values_case(a, b, c, d, e);
+  unsigned x = (unsigned) vp_in_range(0, 1), y = (unsigned) vp_in_range(0, IVN1 - 1), z = (unsigned) vp_in_range(0, 1), u = (unsigned) vp_in_range(0, IVN2 - 1), v = (unsigned) vp_in_range(0, 1);
+  for (unsigned a = 0; a < 2; a++) for (unsigned b = 0; b < IVN1; b++) for (unsigned c = 0; c < 2; c++) for (unsigned d = 0; d < IVN2; d++) for (unsigned e = 0; e < 2; e++) if (x == a && y == b && z == c && u == d && v == e) values_case(a, b, c, d, e);
 #endif
   VP_WITNESS_IF(iv_kept >= 1, "an index specification honoured");
   VP_WITNESS_IF(iv_dropped >= 1, "an invalid index specification ignored");
